@@ -5,6 +5,7 @@ import (
 	"fmt"
 	"reflect"
 	"testing"
+	"time"
 
 	"github.com/samber/ro"
 	"verifharness/cat"
@@ -51,6 +52,22 @@ var c04ScribbleOps = map[string]func(ro.Observable[int]) ro.Observable[any]{
 	"BufferWhen(never)": func(s ro.Observable[int]) ro.Observable[any] {
 		return anyObs(ro.BufferWhen[int, struct{}](ro.Never())(s))
 	},
+	// buffers cut by a boundary that fires after every second value (source and
+	// boundary driven from one goroutine: a flush happens while the buffer has spare capacity)
+	"BufferWhen(every 2)": func(s ro.Observable[int]) ro.Observable[any] {
+		b := ro.NewPublishSubject[int]()
+		n := 0
+		ticking := ro.Tap(func(int) {
+			n++
+			if n%2 == 0 {
+				defer b.Next(0)
+			}
+		}, func(error) {}, func() {})(s)
+		return anyObs(ro.BufferWhen[int, int](b)(ticking))
+	},
+	"BufferWithTimeOrCount(3)": func(s ro.Observable[int]) ro.Observable[any] {
+		return anyObs(ro.BufferWithTimeOrCount[int](3, time.Hour)(s))
+	},
 	"Pairwise>Pairwise": func(s ro.Observable[int]) ro.Observable[any] {
 		return anyObs(ro.Pairwise[[]int]()(ro.Pairwise[int]()(s)))
 	},
@@ -59,10 +76,21 @@ var c04ScribbleOps = map[string]func(ro.Observable[int]) ro.Observable[any]{
 	},
 }
 
+// appended collects the spare capacity the consumer has written to (checked after the run).
+var appended [][]int
+
 func scribble(v any) {
 	rv := reflect.ValueOf(v)
 	switch rv.Kind() {
 	case reflect.Slice:
+		// ... and use the spare capacity: a consumer may append to a slice it was given
+		if rv.Cap() > rv.Len() && rv.Type().Elem().Kind() == reflect.Int {
+			ext := rv.Slice(rv.Len(), rv.Cap()).Interface().([]int)
+			for i := range ext {
+				ext[i] = -77
+			}
+			appended = append(appended, ext) // this memory now belongs to the consumer
+		}
 		for i := 0; i < rv.Len(); i++ {
 			// the container only: its elements may be values the operator was handed and
 			// legitimately passes on more than once (Pairwise over slices)
@@ -98,7 +126,16 @@ func c04ScribbleRun(t rt.TB, c c04Scribble) {
 		return cat.TraceOf(rec.Trace()), pan
 	}
 	passive, p1 := run(false)
+	appended = nil
 	active, p2 := run(true)
+	for _, ext := range appended {
+		for _, x := range ext {
+			if x != -77 {
+				rt.Report(t, rt.Failure{Property: "C04", Check: "consumer-scribbles", Op: c.Op, Class: "operator-writes-into-memory-it-handed-out", Msg: fmt.Sprintf("%s over [%s]: the consumer appended to a slice it had been given; the operator later wrote %d into that memory (delivered slices share a backing array with the operator's live buffer)", c.Op, rt.ScriptString(c.Script), x), Case: c})
+				return
+			}
+		}
+	}
 	if p1 != nil || p2 != nil {
 		rt.Report(t, rt.Failure{Property: "C04", Check: "consumer-scribbles", Op: c.Op, Class: "panic-escaped", Msg: fmt.Sprintf("%s over [%s]: %v / %v", c.Op, rt.ScriptString(c.Script), p1, p2), Case: c})
 		return
